@@ -346,7 +346,8 @@ def run(ctx):
         with cf.ThreadPoolExecutor(max_workers=12) as ex:
             # the largest configurations get several workers (vlib runs one multi-worker TLC at a time), the others one each
             nbig = 2 if ctx.thorough else 1
-            futs = [ex.submit(ctx.model_check, "MC_KeysetHandle", cfg, stage=st, workers=(6 if i < nbig else 1), heap="6g", timeout=3400)
+            futs = [ex.submit(ctx.model_check, "MC_KeysetHandle", cfg, stage=st, workers=(6 if i < nbig else 1), heap="6g", timeout=3400,
+                              must_cover=False)
                     for i, (cfg, st) in enumerate(mc)]
             futs += [ex.submit(expect_violation, ctx, "MC_KeysetHandle_dev_err", "ErrLeavesUnchanged",
                                "M:EXPECTED violation of C11 ErrLeavesUnchanged by AddKeyWithOpts"),
